@@ -196,7 +196,7 @@ fn run_parent(args: &[String]) -> i32 {
         engine::fuzz::run_all(def.id, def.fuzz, runs, seed, &mut report);
     }
 
-    finish(def, tier, seed, report, started, &known)
+    finish(def, tier, seed, report, started, &known, arg_value(args, "--suite").is_some())
 }
 
 fn finish(
@@ -206,6 +206,7 @@ fn finish(
     mut report: Report,
     started: Instant,
     known: &[engine::KnownFinding],
+    partial: bool,
 ) -> i32 {
     // generator health: every required class must have been reached
     for (name, s) in &report.suites {
@@ -269,7 +270,9 @@ fn finish(
         "wall_s": started.elapsed().as_secs_f64(),
         "violations": report.violations.len(),
     });
-    let ev_dir = format!("{}/evidence", engine::VERIF_ROOT);
+    // a run restricted to one suite (--suite) is a debugging aid: it does not replace the
+    // property's evidence file
+    let ev_dir = if partial { format!("{}/target/evidence-partial", engine::VERIF_ROOT) } else { format!("{}/evidence", engine::VERIF_ROOT) };
     let _ = std::fs::create_dir_all(&ev_dir);
     std::fs::write(
         format!("{}/{}.json", ev_dir, def.id),
